@@ -212,21 +212,53 @@ impl<'a, P: ?Sized + PathImpl> PathMutImpl<'a, P> {
 
 	#[inline]
 	pub fn normalize(&mut self) {
+		self.normalize_with(false)
+	}
+
+	/// Removes the dot segments of the path as specified by RFC 3986,
+	/// Section 5.2.4 (and Errata 4547 for relative paths).
+	///
+	/// Contrarily to [`Self::normalize`], a final dot segment leaves a
+	/// trailing `/` (a final empty segment).
+	#[inline]
+	pub(crate) fn remove_dot_segments(&mut self) {
+		self.normalize_with(true)
+	}
+
+	fn normalize_with(&mut self, trailing_slash: bool) {
+		let open = trailing_slash
+			&& matches!(
+				self.last().map(SegmentImpl::as_bytes),
+				Some(CURRENT_SEGMENT) | Some(PARENT_SEGMENT)
+			);
+
+		let normalized_len = self.normalized_segments().len();
+		let len = if open && normalized_len > 0 {
+			normalized_len + 1
+		} else {
+			normalized_len
+		};
+
 		let mut buffer: SmallVec<[u8; NORMALIZE_IN_PLACE_BUFFER_LEN]> = SmallVec::new();
-		for (i, segment) in self.normalized_segments().enumerate() {
+		let segments = self
+			.normalized_segments()
+			.map(SegmentImpl::as_bytes)
+			.chain(std::iter::once(<P::Segment as SegmentImpl>::EMPTY.as_bytes()))
+			.take(len);
+
+		for (i, segment) in segments.enumerate() {
 			if i == 0 {
 				// Disambiguate if the first normalized segment:
 				// - is empty: writing it as is would either make a relative
-				//   path absolute, drop the segment, or be confused with an
-				//   authority part.
+				//   path absolute, or be confused with an authority part.
+				//   A lone empty segment is written as the empty path (as in
+				//   RFC 3986, Section 5.2.4).
 				// - contains a `:`, the path is relative and at the start
 				//   (it would be confused with a scheme).
 				let disambiguate = if segment.is_empty() {
-					self.is_relative()
-						|| !self.follows_authority
-						|| self.normalized_segments().len() == 1
+					len > 1 && (self.is_relative() || !self.follows_authority)
 				} else {
-					self.start == 0 && self.is_relative() && segment.as_bytes().contains(&b':')
+					self.start == 0 && self.is_relative() && segment.contains(&b':')
 				};
 
 				if disambiguate {
@@ -236,7 +268,7 @@ impl<'a, P: ?Sized + PathImpl> PathMutImpl<'a, P> {
 				buffer.push(b'/')
 			}
 
-			buffer.extend_from_slice(segment.as_bytes())
+			buffer.extend_from_slice(segment)
 		}
 
 		let start = self.first_segment_offset();
